@@ -25,6 +25,9 @@ fn staged(native: bool) -> Run {
     r.w.next_block(15);
     let fb = f(&r, 45);
     assert!(r.step(Op::Open { who: BOB, side: Side::Sell, margin: Uint128::new(45 * d), lev: Uint128::new(10 * d), limit: Uint128::zero(), funds: fb }).tx.ok);
+    // bob has free collateral to withdraw (otherwise a withdrawal fails for lack of margin anyway)
+    let extra = Uint128::new(100 * d);
+    assert!(r.step(Op::Deposit { who: BOB, amount: extra, funds: if native { Some(extra) } else { None } }).tx.ok);
     r.w.next_block(86_400);
     let now = r.w.now();
     r.w.set_oracle(Uint128::new(10 * d), now);
@@ -63,6 +66,11 @@ fn flags(opk: u8, paused: bool, closed: bool, unregistered: bool, native: bool) 
         let rec = r.step(op.clone());
         let what = format!("{} paused={} closed={} unregistered={}", op.name(), paused, closed, unregistered);
         let trader_op = opk <= 3;
+        // vacuity witness on the seeded path: the same operation succeeds on the live twin
+        if !(paused && !closed && !unregistered && !trader_op) {
+            let t2 = twin.step(op.clone());
+            symrt::log_event(format!("live-twin {} ok={}", op.name(), t2.tx.ok));
+        }
         if paused && trader_op {
             prove_d("C14/paused-engine-rejects-trader-operations", Cond::from_bool(!rec.tx.ok), what.clone());
             mon::dump_unchanged("C14/paused-rejection-changes-no-storage", &dump0, &r.w.dump(), &what);
